@@ -30,6 +30,10 @@ Proof.
   intro H. destruct b; simpl; auto. eapply perm_trans; [apply isort_perm|exact H].
 Qed.
 
+Lemma sorted_site_deterministic {A : Type} (f : list Z -> A) (l l' : list Z) :
+  Permutation l l' -> f (isort l) = f (isort l').
+Proof. intro H. f_equal. apply isort_perm_eq. exact H. Qed.
+
 (* ------------------------------------------------------------------ canonical finite maps *)
 
 Section KVFacts.
